@@ -174,7 +174,11 @@ func (p *propC03) Gen(idx int) *Scenario {
 			putN(b, d.be(), v)
 			pl = append(pl, b...)
 		}
-		g.emitData(local, false, 0, pl)
+		if local < 4 && r.Chance(1, 3) {
+			g.emitData(local, true, byte(r.Intn(32)), pl)
+		} else {
+			g.emitData(local, false, 0, pl)
+		}
 	}
 	rs := &RecStream{Header: HeaderSpec{Size: 12 + 2*r.Intn(2), Proto: 0x20, Profile: 2115, HCRC: "ok"}, Ops: g.ops}
 	return &Scenario{V: 1, Property: "C03", Engine: "rx", Seed: p.seed, Index: idx,
